@@ -213,13 +213,13 @@ pub fn programs() -> Vec<Program> {
 
 /// Sequential histories: Q in every quiescent state reachable over a write / clock / sweep alphabet (re-puts of
 /// expired-but-unswept keys, deletes, weight and TTL upserts, evictions under W = 6).
-fn seq_spec(ctx: &Ctx, shards: usize) -> crate::harness::seq::SeqSpec {
+fn seq_spec(ctx: &Ctx, shards: usize, colliding: bool) -> crate::harness::seq::SeqSpec {
     use crate::harness::seq::{Finding as SF, SeqRun, SeqSpec};
     use crate::props::common::{adv, del};
     let ups = |k: K, value: bool, w: Option<i64>, ttl: Option<u64>, rm: bool| Op::Upsert { k, value, w, ttl_ms: ttl, remove_ttl: rm };
     SeqSpec {
-        name: format!("seq/accounting-at-every-quiescent-state/shards{}", shards),
-        setup: Setup { weight: 6, shards, buffer: 64, ..Setup::default() },
+        name: format!("seq/accounting-at-every-quiescent-state/shards{}{}", shards, if colliding { "/all-keys-one-hash" } else { "" }),
+        setup: Setup { weight: 6, shards, buffer: 64, hash_fn: if colliding { HashFn::Constant(7) } else { HashFn::Identity }, ..Setup::default() },
         world: Default::default(),
         prefix: vec![],
         alphabet: vec![
@@ -280,9 +280,9 @@ pub fn def(ctx: &Ctx) -> PropertyDef {
             }
         })
         .collect();
-    for shards in [2usize, 4] {
-        let name = seq_spec(ctx, shards).name;
-        scenarios.push(crate::harness::seq::seq_scenario(move |c| seq_spec(c, shards), &name));
+    for (shards, colliding) in [(2usize, false), (4, false), (2, true)] {
+        let name = seq_spec(ctx, shards, colliding).name;
+        scenarios.push(crate::harness::seq::seq_scenario(move |c| seq_spec(c, shards, colliding), &name));
     }
     PropertyDef {
         id: "C05",
